@@ -20,7 +20,22 @@ META = {
             "shutdown, late calls) run against the real transport and are replayed on the model inside Coq; "
             "end-to-end runs with a real Server, Endpoint, TLS backend and front connections, the server thread "
             "held in the stranding window, check front EOF, unregistration, ServeFront return and the goroutine "
-            "profile.",
+            "profile. Endpoint side of the shutdown: an interleaving model of the endpoint's serve loop (exit, "
+            "conns.shutdown(), closing the returned connections, callWait.Wait()), its connection set, any number "
+            "of dial handlers (sendAccept's select with the arms and the backlog capacity read off the source, "
+            "conns.add failing once the set is shut down), read/write/close handlers, and the application's Accept "
+            "and Close; which exits of handleDial close the connection is computed by symbolic execution of the "
+            "statements the translator extracts, with the obligation that every exit that does not register the "
+            "connection closes it. Proved for every interleaving: a connection handed to Accept is closed, or in a "
+            "set still to be cleaned, or its handler has not finished; when serve has returned every connection "
+            "ever handed out is closed; after the loop is left some goroutine of the endpoint can always step, "
+            "their steps are bounded, serve returns without help from the application or the peer. The shape of "
+            "seeded change C04-e (no close after a failed conns.add) is kept as a refuted counter-model with a "
+            "concrete schedule. The accept-backlog scenarios (backlog of 10 full, 5-30 more dials parked in "
+            "sendAccept, control connection severed on either side / kicked / shut down / endpoint closed by the "
+            "application, then the application drains Accept) run against a real Server and Endpoint: Accept "
+            "returns, every accepted connection's pending Read, later Read and Write return, Endpoint.Close "
+            "returns, every front connection is closed, nothing is left; also in the side modes.",
     "note": "Partial (runtime): the theorems give enabledness and a bound on own steps; that an enabled goroutine "
             "runs is Go's scheduler; TCP close/reset timing, the websocket close handshake and Go timers are not "
             "modelled (10 s observation bounds stand in for bounded time). Trusted: Coq kernel + vm_compute; "
@@ -32,7 +47,9 @@ META = {
 
 MODEL = ["theories/Sni/ShutdownCorr.vo"]
 PROOFS = ["theories/Props/C04.vo"]
-STATEMENT_FILES = ["theories/Props/C04.v", "theories/Sni/ShutdownGen.v"]
+STATEMENT_FILES = ["theories/Props/C04.v", "theories/Sni/ShutdownGen.v", "theories/Sni/ShutdownDialGen.v"]
+
+BACKLOG = 10        # cap(Endpoint.incoming), checked against the source by gen_newEndpoint_frozen
 
 
 def b(x):
@@ -100,6 +117,8 @@ def impl_oracle(c):
         if not c.get("serve_done"):
             out.append(("serve-not-done", "the serve loop did not exit after the connection was lost"))
         return out
+    if c["stream"] == "epb":
+        return epb_oracle(c, out)
     if c["stream"] == "ep":
         for x in c.get("ep", []):
             if not x["returned"]:
@@ -146,6 +165,73 @@ def impl_oracle(c):
     return out
 
 
+def run_side_script(binp, script, bound):
+    """Run a script of cases in a harness process of its own; returns the cases."""
+    d = os.path.join(vlib.BUILD, "cases", "C04")
+    os.makedirs(d, exist_ok=True)
+    sp = os.path.join(d, "side_script.json")
+    json.dump(script, open(sp, "w"))
+    rc, out, err = vlib.sh2([binp, "-script", sp, "-bound", bound], timeout=1200)
+    return [json.loads(l) for l in out.splitlines() if l.startswith("{")]
+
+
+def epb_oracle(c, out):
+    """Accept backlog against the loss of the tunnel (stream epb)."""
+    fc = c.get("front_closed") or []
+    nopen = len([x for x in fc if not x])
+    rs, ls = c.get("read_stuck") or [], c.get("later_stuck") or []
+    how = "scenario '%s' with %d front connections (%d dial handlers parked in sendAccept when the control " \
+          "connection went; %d connections handed out by Accept)" % (c["fault"], c.get("fronts", 0),
+                                                                     c.get("parked", 0), c.get("accepted", 0))
+    side = bool(c.get("mode"))
+    if c.get("accept_end") == "stuck":
+        out.append(("accept-stuck", "Endpoint.Accept did not return after the tunnel was gone; " + how))
+    if c.get("close_stuck"):
+        out.append(("close-stuck", "Endpoint.Close did not return; " + how))
+    elif c.get("close_ms", 0) > 8000:
+        out.append(("close-slow", "Endpoint.Close took %d ms (its graceful wait is bounded by a 5 s timer); %s"
+                    % (c["close_ms"], how)))
+    if rs and not side:
+        out.append(("accepted-conn-never-ends",
+                    "%d of %d connections handed out by Endpoint.Accept still block in Read although the tunnel "
+                    "is gone and the endpoint is closed (connections no. %s in order of acceptance; the first "
+                    "%d had been in the backlog when the tunnel went, the others got their slot afterwards): "
+                    "nobody closes them; %s" % (len(rs), c.get("accepted", 0), rs[:12], BACKLOG, how)))
+    if rs and side:
+        # (established side connections are websockets of their own and live on with their front connections;
+        #  the scenario's clients hang up before the reads are observed)
+        out.append(("orphan-conn",
+                    "%s mode: %d of %d connections handed out by Endpoint.Accept still block in Read although "
+                    "every front connection is gone -- closed by the proxy when the control connection went, or "
+                    "by the client (connections no. %s in order of acceptance): the side connection of a dial "
+                    "that was in flight when the control connection went is never closed by the server; %s"
+                    % (c["mode"], len(rs), c.get("accepted", 0), rs[:12], how)))
+    if ls:
+        out.append(("accepted-conn-later-op-stuck",
+                    "a later Read/Write on %d accepted connection(s) did not return; %s" % (len(ls), how)))
+    if not side:
+        if not all(fc):
+            out.append(("front-not-closed", "%d of %d front connections were not closed by the proxy; %s"
+                        % (nopen, len(fc), how)))
+    else:
+        want = max(0, c.get("fronts", 0) - BACKLOG)
+        if len(fc) - nopen < want:
+            out.append(("front-not-closed", "%s mode: only %d of the %d front connections whose dial was in flight "
+                        "were closed by the proxy %s ms after the control connection went; %s"
+                        % (c["mode"], len(fc) - nopen, want, (c.get("timeline_ms") or [0] * 4)[3], how)))
+    if not c.get("unregistered"):
+        out.append(("still-registered", "the lost endpoint is still registered under its name; " + how))
+    if not c.get("servefront_returned"):
+        out.append(("servefront-stuck", "ServeFront did not return after its context was cancelled; " + how))
+    if not c.get("serveback_returned"):
+        out.append(("serveback-stuck", "a ServeBack handler did not return although the endpoint, every accepted "
+                                       "connection and every front connection were closed; " + how))
+    if c.get("leak"):
+        out.append(("goroutine-left", "goroutines still inside sniproxy/netutil after teardown: %s; %s"
+                    % (", ".join(sorted(set(c["leak"]))[:4]), how)))
+    return out
+
+
 def run(ck):
     n, ne = (400, 80) if not ck.thorough else (6000, 1200)
     ck.gen()
@@ -168,14 +254,31 @@ def run(ck):
         n = int(os.environ.get("VERIF_C04_N", n))           # (for demonstrations on a defective tree,
         ne = int(os.environ.get("VERIF_C04_E2E", ne))       #  where every stranded thread costs a bound)
         nep = int(os.environ.get("VERIF_C04_EP", 8 if not ck.thorough else 64))
-        rc, out, err = vlib.sh2([binp, "-seed", str(ck.seed), "-n", str(n), "-e2e", str(ne), "-bound", bound,
-                                 "-ep", str(nep)],
-                                timeout=6000)
+        nepb = int(os.environ.get("VERIF_C04_EPB", 5 if not ck.thorough else 80))
+        # the accept-backlog scenarios in the side modes run in a process of their own, next to the main run
+        # (on a tree that orphans side connections each of them waits out two observation bounds)
+        side_script = [{"stream": "epb", "fault": f, "conns": k, "mode": m}
+                       for f, k, m in ([("sever-endpoint", 13, "siding")] if not ck.thorough else
+                                       [("sever-endpoint", 13, "siding"), ("kick", 24, "sidingaddr"),
+                                        ("shutdown", 15, "siding"), ("sever-server", 31, "sidingaddr"),
+                                        ("close-endpoint", 12, "siding"), ("kick", 7, "siding")])]
+        from concurrent.futures import ThreadPoolExecutor
+        with ThreadPoolExecutor(max_workers=2) as ex:
+            main_run = ex.submit(vlib.sh2, [binp, "-seed", str(ck.seed), "-n", str(n), "-e2e", str(ne),
+                                            "-bound", bound, "-ep", str(nep), "-epb", str(nepb)], timeout=6000)
+            side_run = ex.submit(run_side_script, binp, side_script, bound)
+            rc, out, err = main_run.result()
+            side_cases = side_run.result()
         if rc != 0:
             ck.broken.append({"what": "harness run failed", "detail": err[-1500:]})
         for line in out.splitlines():
             if line.startswith("{"):
                 cases.append(json.loads(line))
+        if len(side_cases) != len(side_script):
+            ck.broken.append({"what": "harness run (side-mode accept-backlog scenarios) failed"})
+        for j, c in enumerate(side_cases):
+            c["i"] = len(cases)
+            cases.append(c)
 
     # concurrent side dials under the race detector (the session key source is shared by all dials)
     if binp and replayed is None:
@@ -204,6 +307,8 @@ def run(ck):
                              {"case": script[0], "race_report": first, "races": nraces})
 
     faults, kinds = {}, {}
+    epb = {"scenarios": 0, "window_reached": 0, "parked_handlers": 0, "accepted_connections": 0,
+           "accepted_after_the_loss": 0}
     shrunk = set()
     ck.coverage["cases_skipped_after_repeated_stranding"] = len([c for c in cases if c.get("skipped")])
     cases = [c for c in cases if not c.get("skipped")]
@@ -214,6 +319,18 @@ def run(ck):
             for x in c.get("callers", []):
                 kk = "%s/%s" % (x["kind"], x["ctx"])
                 kinds[kk] = kinds.get(kk, 0) + 1
+        elif c["stream"] == "epb":
+            key = json.dumps(["epb", c["fault"], c["conns"], c.get("mode"), c.get("accepted"),
+                              c.get("read_stuck"), c.get("accept_end")])
+            # non-trivial: the window was reached (handlers parked, the endpoint in its clean-up before the drain)
+            trivial = not (c.get("parked", 0) > 0 and c.get("noticed"))
+            fk = "epb:" + c["fault"] + (":" + c["mode"] if c.get("mode") else "")
+            faults[fk] = faults.get(fk, 0) + 1
+            epb["scenarios"] += 1
+            epb["window_reached"] += 0 if trivial else 1
+            epb["parked_handlers"] += c.get("parked", 0)
+            epb["accepted_connections"] += c.get("accepted", 0)
+            epb["accepted_after_the_loss"] += max(0, c.get("accepted", 0) - BACKLOG)
         elif c["stream"] == "ep":
             key = json.dumps(["ep", c["fault"], c["conns"], [(x["kind"], x["returned"]) for x in c.get("ep", [])]])
             trivial = False
@@ -230,20 +347,30 @@ def run(ck):
                 shrunk.add(k)
                 # (every run on a defective tree costs an observation bound: small budget, short bound)
                 small = rpc_common.shrink(ck, binp, c, k, impl_oracle, extra=["-bound", "3"], budget=6)
-            ck.violation("impl:%s:%s" % (c["stream"], k), why,
+            stream = c["stream"] + ("-side" if c["stream"] == "epb" and c.get("mode") else "")
+            ck.violation("impl:%s:%s" % (stream, k), why,
                          {"case": small, "original_case": c if small is not c else None,
                           "expected": "every operation returns, front connections are closed, the name "
                                       "is unregistered, serving terminates, no goroutine is left",
                           "observed": {k2: small.get(k2) for k2 in ("callers", "reader_alive", "front_closed", "mid_dial", "ep", "close_ms",
-                                                                    "unregistered", "servefront_returned", "leak")}})
+                                                                    "unregistered", "servefront_returned", "leak",
+                                                                    "parked", "noticed", "accepted", "accept_end",
+                                                                    "read_stuck", "later_stuck", "close_stuck",
+                                                                    "serveback_returned")
+                                       if small.get(k2) is not None}})
     ck.coverage["e2e_faults"] = faults
+    ck.coverage["accept_backlog"] = epb
+    if epb["scenarios"] and not epb["window_reached"] and replayed is None:
+        ck.broken.append({"what": "no accept-backlog scenario reached its window (dial handlers parked in "
+                                  "sendAccept and the endpoint in its clean-up before the application drains)"})
     ck.coverage["tl_caller_kinds"] = kinds
     ck.coverage["tl_callers_total"] = sum(len(c.get("callers", [])) for c in cases if c["stream"] == "tl")
     ck.coverage["e2e_front_connections"] = sum(c.get("conns", 0) for c in cases if c["stream"] == "e2e")
     tl = [c for c in cases if c["stream"] == "tl" and not c.get("crash")]
-    for c in tl[:2] + [c for c in cases if c["stream"] == "e2e"][:2]:
-        ck.sample({k: c.get(k) for k in ("stream", "steps", "callers", "fault", "conns", "front_closed",
-                                         "unregistered", "servefront_returned") if c.get(k) is not None})
+    for c in tl[:2] + [c for c in cases if c["stream"] == "e2e"][:2] + [c for c in cases if c["stream"] == "epb"][:2]:
+        ck.sample({k: c.get(k) for k in ("stream", "steps", "callers", "fault", "conns", "mode", "front_closed",
+                                         "unregistered", "servefront_returned", "parked", "noticed", "accepted",
+                                         "accept_end", "read_stuck") if c.get(k) is not None})
 
     model_ok = all(built.get(x) for x in MODEL)
     if tl and model_ok:
@@ -289,7 +416,7 @@ def run(ck):
         checker_cmd="bin/check C04 (gen -> make -C coq theories/Props/C04.vo -> Print Assumptions audit -> "
                     "harness c04 vs vm_compute of Sni/ShutdownCorr.v + end-to-end observations)",
         trusted=["Coq 8.16.1 kernel + vm_compute", "translator gen/sni_rpc.go (select arms, channel capacities, "
-                 "statement skeletons)", "harness/cmd/c04 + harness/rpcx + checks/c04.py",
+                 "statement skeletons, the statements of the dial handlers)", "harness/cmd/c04 + harness/rpcx + checks/c04.py",
                  "sniproxy/verif_rpc.go, verif_point.go hooks",
                  "modelled not verified: Go channels/select/scheduler fairness, timers, TCP and websocket close"],
         rule="4 fixed scenarios then seeded transport-level scenarios (2-10 steps of {new hello/read/closeAll/"
@@ -304,8 +431,15 @@ def run(ck):
              "TLS front connections with the server thread held after serve() until the connections' close calls "
              "are issued; plus endpoint-side scenarios driving Endpoint.Accept / Close / sendAccept explicitly (Accept "
              "pending when the server severs, kicks or closes the endpoint; two Close calls concurrent with Accepts; 12 "
-             "dials with nobody accepting, then Close or a late Accept). Non-trivial: a scenario with >= 1 caller / >= 1 front connection; distinct = distinct "
-             "(steps, per-caller outcome) resp. (fault, connections, hold, outcome)",
+             "dials with nobody accepting, then Close or a late Accept); plus accept-backlog scenarios on a real "
+             "Server + ServeFront + Endpoint {15-40 front connections with the application not accepting: 10 fill the "
+             "backlog, the other dial handlers are parked in sendAccept (observed through the goroutine profile); then "
+             "the control connection is severed on the endpoint side / severed on the server side / kicked by a second "
+             "endpoint / shut down by the server / the application calls Endpoint.Close; once the endpoint's serve "
+             "loop is in its deferred clean-up the application runs an accept loop and reads from every connection it "
+             "gets}, also in the side modes (in a process of their own). Non-trivial: a scenario with >= 1 caller / >= 1 front connection; distinct = distinct "
+             "(steps, per-caller outcome) resp. (fault, connections, hold, outcome); an accept-backlog scenario is "
+             "non-trivial when its window was reached (handlers parked and the endpoint in its clean-up before the drain)",
         assumptions=["enabled goroutines are eventually scheduled (Go runtime)",
                      "a 10 s observation bound stands in for 'bounded time'",
                      "the peer of a lost connection does not come back"])
